@@ -35,6 +35,11 @@ def _one(pid, path):
         r = subprocess.run([sys.executable, os.path.join(VERIF, "check"), pid, "--tier", "quick"], cwd=VERIF, env=env,
                            stdout=subprocess.PIPE, stderr=subprocess.STDOUT, text=True)
         out = r.stdout
+        if expect == "refuse":
+            # a behaviour-preserving edit the rules cannot follow (e.g. a rename of an anchored local): the only acceptable
+            # answers are a pass or an explicit refusal (exit 2) — never a VIOLATION
+            ok = r.returncode in (0, 2) and "VIOLATION" not in out
+            return (name, expect, "ok" if ok else "FALSE-ALARM(rc=%d)" % r.returncode, "" if ok else out[-1500:])
         if expect == "silent":
             ok = r.returncode == 0 and "VIOLATION" not in out
             return (name, expect, "ok" if ok else "FALSE-ALARM(rc=%d)" % r.returncode, "" if ok else out[-1500:])
